@@ -328,13 +328,15 @@ class ConvolvedFluxes(object):
             c.flux = flux_interp(apertures_new) * self.flux.unit
 
             # The following is not strictly correct - errors from interpolation is not interpolation of errors
-            error_interp = interp1d(self.apertures, self.error)
-            c.error = error_interp(apertures_new) * self.error.unit
+            if self.error is not None:
+                error_interp = interp1d(self.apertures, self.error)
+                c.error = error_interp(apertures_new) * self.error.unit
 
         else:
 
             c.flux = np.repeat(self.flux, len(c.apertures)).reshape(c.n_models, len(c.apertures))
-            c.error = np.repeat(self.error, len(c.apertures)).reshape(c.n_models, len(c.apertures))
+            if self.error is not None:
+                c.error = np.repeat(self.error, len(c.apertures)).reshape(c.n_models, len(c.apertures))
 
         return c
 
@@ -426,6 +428,9 @@ class MonochromaticFluxes(ConvolvedFluxes):
         conv.model_names = cube.names
 
         conv.flux = cube.val[:, :, wavelength_index]
-        conv.error = cube.unc[:, :, wavelength_index]
+
+        # Uncertainties are optional in SED cubes
+        if cube.unc is not None:
+            conv.error = cube.unc[:, :, wavelength_index]
 
         return conv
